@@ -507,13 +507,12 @@ CO_ERR CORPdoGetMap(CO_RPDO *pdo, uint16_t num)
         }
         link = mapping >> 16;
         if ((link == 2) || (link == 5)) {
+            /* dummy: one empty slot per mapped byte (the entry itself is the first slot) */
             pdo[num].Map[on + dummy] = 0;
-            dummy++;
         } else if ((link == 3) || (link == 6)) {
             pdo[num].Map[on + dummy] = 0;
             dummy++;
             pdo[num].Map[on + dummy] = 0;
-            dummy++;
         } else if ((link == 4) || (link == 7)) {
             pdo[num].Map[on + dummy] = 0;
             dummy++;
@@ -522,7 +521,6 @@ CO_ERR CORPdoGetMap(CO_RPDO *pdo, uint16_t num)
             pdo[num].Map[on + dummy] = 0;
             dummy++;
             pdo[num].Map[on + dummy] = 0;
-            dummy++;
         } else {
             obj = CODictFind(&pdo->Node->Dict, mapping);
             if (obj == 0) {
@@ -606,6 +604,9 @@ void CORPdoWrite(CO_RPDO *pdo, CO_IF_FRM *frm)
             } else {
                 CORpdoWriteData(frm, dlc, pdosz, obj);
             }
+        } else {
+            /* dummy slot: skip one byte of the payload */
+            dlc++;
         }
     }
 }
